@@ -97,6 +97,7 @@ def shards(tier, seed):
         for cap in (82, 20, 1):
             sh.append(("ladder", S, "v32" if cap == 20 else "v20", None, ("str", cap), 3))
         # controllers older than the large connection (firmware below 20) that nevertheless grant whatever is asked, and the first call of a driver
+        sh += [("boolarray", S, "v20"), ("boolarray", S, "v32")]
         sh += [("mixed", S, "v17"), ("mixed", S, "v18"), ("ladder", S, "v18", "SINT", None, 3), ("first-call", S, "m800"), ("first-call", S, "v32")]
         for ss in big_element_sizes(S):
             sh.append(("ladder", S, "v20" if ss % 8 else "v32", None, ss, 3, "big"))
@@ -232,6 +233,60 @@ def run_shard(shard, tier, seed):
         rep.sample({"config": cfg, "tags": len(tags), "sizes": f"{tags[0].nbytes}..{tags[-1].nbytes}"})
         call(d.close)
         w.__exit__()
+    elif kind == "boolarray":
+        # BOOL arrays are read in 32-bit words from the START of the array up to the last element asked for: what a request solicits grows
+        # with its start index, not only with its count
+        import pycomm3
+
+        _, S, pers = shard[:3]
+        nd = (S // 4) * 2 + 40
+        proj = projgen.Project("P5b")
+        proj.tag("bits", "DWORD", (nd,), instance_id=0x210)
+        proj.tag("small", "DINT", instance_id=5)
+        fill_image(proj, 1)
+        ctl = logix.LogixController(proj, pers, None, choices=("rfrag",))
+        t = enip.Target(ctl, enip.Policy(large_fo="accept" if S == 4000 else "refuse08"), keep_cip=False)
+        cfg = (S, pers, "boolarray")
+        with net.World(t, io_budget=10**9):
+            d = pycomm3.LogixDriver("10.0.0.1")
+            o = call(d.open)
+            if o != ("ok", True):
+                rep.violation("size/open-failed", f"{cfg}: open() -> {o!r:.120}", {"shard": list(shard), "tag": None, "op": "open", "path": None, "choices": []})
+            ends = sorted(set(range(S // 4 - 24, S // 4 + 6)) | set(range(2 * (S // 4) - 6, 2 * (S // 4) + 6)) | {3, 40})
+            for end in ends:  # number of words from the start of the array to the end of the request
+                for count in (1, 33, 64, 32 * 3):
+                    start = end * 32 - count
+                    if start < 0 or end > nd:
+                        continue
+                    text = f"bits[{start}]{{{count}}}" if count > 1 else f"bits[{start}]"
+                    for lst in ([text], ["small", text], [text, "small", text]):
+                        def scenario(ctx, lst=lst):
+                            ctl.ctx = ctx
+                            ctl.svc_log.clear()
+                            n_ev = len(t.events)
+                            return call(d.read, *lst), n_ev
+
+                        def on_exec(ctx, res, lst=lst, text=text, end=end):
+                            out, n_ev = res
+                            probs = [(tag[4:], detail) for tag, detail in t.events[n_ev:] if tag.startswith("C04")]
+                            if out[0] != "ok":
+                                probs.append(("exception", f"read raised {out!r:.100}"))
+                            else:
+                                got = out[1] if isinstance(out[1], list) else [out[1]]
+                                for g, x in zip(got, lst):
+                                    want = Q.read_expect(proj, x)
+                                    if not bool(g):
+                                        probs.append(("not-readable", f"{x}: error {getattr(g, 'error', None)!r:.80}"))
+                                    elif not Q.same_value(g.value, want[1]):
+                                        probs.append(("wrong-value", f"{x}: value differs from controller memory"))
+                            rep.case((cfg, tuple(lst), tuple(ctx.choices)), outcome=f"ok:boolarray/{len(lst)}" if not probs else probs[0][0])
+                            for clause, detail in probs[:2]:
+                                rep.violation(f"read/boolarray/{'single' if len(lst) == 1 else 'multi'}/{clause}", f"{cfg} read {lst!r} ({4 * end} bytes from the start of the array, connection {S}): {detail} (choices {ctx.choices!r})",
+                                              {"shard": list(shard), "tag": "bits", "op": "read", "path": "boolarray", "choices": list(ctx.choices)})
+                        explore(scenario, 1, on_exec)
+                        ctl.ctx = None
+            call(d.close)
+        rep.sample({"config": cfg, "words_from_start": f"{ends[0]}..{ends[-1]}"})
     elif kind == "first-call":
         # a second driver that takes its tag definitions from the first (plc2._tags = plc1.tags, init_tags=False): on a Micro800 nothing
         # connected happens during open(), so the transfer itself is what opens the connection and learns its size
@@ -290,6 +345,7 @@ def run_shard(shard, tier, seed):
         for nbytes in range(1, 200):
             proj.tag(f"m{nbytes}", "SINT", (nbytes,), instance_id=0x200 + nbytes)
         proj.tag("small", "DINT", instance_id=5)
+        proj.tag("bigs", "SINT", (3 * shard[1] + 7,), instance_id=6)
         fill_image(proj, 1)
         ctl = logix.LogixController(proj, pers)
         t = enip.Target(ctl, enip.Policy(large_fo="accept" if S == 4000 else "refuse08", fo_refuse_first=2 if busy else 0), keep_cip=False)
@@ -364,6 +420,33 @@ def run_shard(shard, tier, seed):
                         for clause, detail in probs[:2]:
                             rep.violation(f"{op}/multi-packet-list/{clause}", f"{cfg}: {op} of {k} x {base2}-byte requests + 1: {detail}",
                                           {"shard": list(shard), "tag": None, "op": op, "path": ["many", base2, k], "choices": []})
+            # a transfer that needs fragments at every position inside such lists: what is packed before and behind it stays within the size
+            nbig = proj.find("bigs").elements
+            for base2 in (80, 199):
+                per_packet = max(1, S // (base2 + 12))
+                for k in sorted({per_packet - 1, per_packet, per_packet + 1, 2 * per_packet - 1, 2 * per_packet + 1} - {0}):
+                    for i in range(k + 1):
+                        if S == 4000 and i % 3 and i not in (k - 1, k):
+                            continue
+                        names = [f"m{base2}{{{base2}}}"] * i + [f"bigs{{{nbig}}}"] + [f"m{base2}{{{base2}}}"] * (k - i) + ["small"]
+                        for op in ("read", "write"):
+                            n_ev = len(t.events)
+                            if op == "read":
+                                out = call(d.read, *names)
+                            else:
+                                pre = proj.snapshot()
+                                out = call(d.write, *[(nm, [1] * int(nm.split("{")[1][:-1])) if "{" in nm else (nm, 9) for nm in names])
+                                proj.restore(pre)
+                            probs = [(tag[4:], detail) for tag, detail in t.events[n_ev:] if tag.startswith("C04")]
+                            if out[0] != "ok":
+                                probs.append(("exception", f"{op} raised {out!r:.100}"))
+                            elif not all(bool(g) for g in out[1]):
+                                bad = [j for j, g in enumerate(out[1]) if not bool(g)]
+                                probs.append(("request-failed", f"{len(bad)} of {len(names)} requests failed, first #{bad[0]} {names[bad[0]]!r}: {out[1][bad[0]].error!r:.80}"))
+                            rep.case((cfg, op, "around-fragmented", base2, k, i), outcome=f"ok:{op}/around-fragmented" if not probs else probs[0][0])
+                            for clause, detail in probs[:2]:
+                                rep.violation(f"{op}/list-around-fragmented/{clause}", f"{cfg}: {op} of {i} x {base2}-byte requests, one of {nbig} bytes, {k - i} x {base2}-byte requests + 1: {detail}",
+                                              {"shard": list(shard), "tag": None, "op": op, "path": ["around", base2, k, i], "choices": []})
             call(d.close)
         rep.sample({"config": (S, pers, "mixed"), "targets": f"{S - 48}..{S + 8}", "multi_packet_lists": "k x {20,80,150,199}-byte requests, k up to 4 packets"})
     return rep
